@@ -17,7 +17,7 @@ import searchlib
 PROPERTY = "C02"
 LEVEL = "proof"
 MANIFEST = {
-    "text": "Lean theorems for every candidate list / excess function / cap / flag: the selection never lies above the cap index; unmet designs end in ValueError or the documented fallback; no exception type other than ValueError on non-degenerate input; solve_root stays in the height window. Model tied to the real search classes (synthetic oracles, boundary-targeted) and to recorded real runs.",
+    "text": "Lean theorems for every candidate list / excess function / cap / flag: the selection never lies above the cap index; unmet designs end in ValueError or the documented fallback; no exception type other than ValueError on non-degenerate input; solve_root stays in the height window, and so does the height GHEManager.find_design ends with, for every design method and outcome (find_design_height_in_window, over the regenerated statement list). Model tied to the real search classes (synthetic oracles, boundary-targeted), to recorded real runs (incl. re-used and re-configured managers, windows converted from feet) and to the file-driven entry point.",
     "note": "thermal simulation = arbitrary oracle; scipy brentq stays inside its bracket (checked on every run); numpy's own ValueError in RowWise point_sort counts as ValueError (recorded as an observation in DESIGN.md)",
     "technique": "Lean 4 proof about the search model + correspondence with the real classes on synthetic oracles and recorded real runs",
     "design_ref": "DESIGN.md §3 C02",
